@@ -166,8 +166,16 @@ pub fn gen_input(rng: &mut Rng) -> Input {
             p.stanzas
         } else { safe_stanzas(rng, 0, 2) }
     };
+    let mut first_src: Option<String> = None;
     match rng.below(100) {
-        0..=27 => {
+        0..=5 => {
+            // inherited scoped variables with several nested definers (nearest-ancestor lookups walk maps)
+            kind = "valid:scoped-inherit-nested";
+            let ordered = rng.chance(50); let inp = crate::streams::c04_input_mode(rng, ordered);
+            stanzas = vec![inp.dsl];
+            first_src = Some(inp.src);
+        }
+        6..=27 => {
             kind = "valid-generated";
             let opts = GenOpts::full();
             let p = accepted_program(rng, &opts);
@@ -259,7 +267,7 @@ pub fn gen_input(rng: &mut Rng) -> Input {
     text.extend(stanzas);
     let mut srcs: Vec<String> = Vec::new();
     for i in 0..3 {
-        let mut s = gen_source(rng);
+        let mut s = if i == 0 && first_src.is_some() { first_src.take().unwrap() } else { gen_source(rng) };
         if i == 2 && rng.chance(30) { let k_ = 1 + rng.below(2); s = inject_faults(rng, &s, k_); }
         srcs.push(s);
     }
